@@ -49,6 +49,7 @@ GuardMeta(e) == /\ e.stored <= 8192 /\ e.usize <= 8192 /\ e.usize >= 1
 GuardInode(st, e) ==
   /\ e.num \in 1..st.sup.inodes /\ e.num \notin st.nums
   /\ e.nlink >= 1
+  /\ (e.type # "dir" => e.nlink = e.refs)                              \* as many links as directory entries name the inode (basic inodes: exactly one)
   /\ e.uid_idx < st.sup.ids /\ e.gid_idx < st.sup.ids
   /\ (e.xattr # 0 - 1 => st.sup.has_xattr)
   /\ (e.type = "dir" => (e.nlink >= 2 /\ (e.is_root \/ e.parent \in 1..st.sup.inodes) /\ e.size >= 3))
